@@ -398,6 +398,31 @@ func passesRule(p *core.Program, r *core.Result, fn, callee *ssa.Function, what 
 	if fn == nil || callee == nil {
 		return
 	}
+	// a function with loops: count the passes on every path, with helpers expanded and
+	// loops over constant tables unrolled (the exit tests must be decided by constants)
+	if len(ssax.Loops(fn)) > 0 {
+		inline := func(h *ssa.Function, depth int) bool {
+			return p.InModule(h) && h != callee && depth <= 3 && len(h.Blocks) <= 60 && reachesFrom(p, h, callee)
+		}
+		if traces, err := ssax.EnumerateTracesWith(fn, inline, 2000, traceConsts(p)); err == nil && len(traces) > 0 {
+			max := 0
+			for _, tr := range traces {
+				n := 0
+				for _, it := range tr.Items {
+					if it.Call != nil && it.Call.Common().StaticCallee() == callee {
+						n++
+					}
+				}
+				if n > max {
+					max = n
+				}
+			}
+			if max >= 1 && max <= 8 {
+				r.OK("L1", core.QualName(fn), fmt.Sprintf("%s: at most %d call(s) of %s on any of the %d paths (loops over constant tables unrolled)", what, max, callee.Name(), len(traces)), p.Pos(fn.Pos()), "constant number of passes")
+				return
+			}
+		}
+	}
 	total := 0
 	var walk func(g *ssa.Function, depth int, mult int, via string)
 	walk = func(g *ssa.Function, depth int, mult int, via string) {
@@ -511,6 +536,17 @@ func wholeInputRule(c *Ctx, r *core.Result, env *e3Env, lc *loopClass) {
 				expr := "library scan outside the scan steps is outside loops or over a bounded window: " + core.Short(ssax.Canon(call))
 				if ssax.InnermostLoop(loops, b) == nil {
 					r.OK("L3", core.QualName(fn), expr, p.Pos(call.Pos()), "not inside a loop of "+fn.Name())
+					continue
+				}
+				// loops that count over a constant table repeat the scan a constant number of times
+				allConst := true
+				for _, l := range ssax.EnclosingLoops(loops, b) {
+					if !l.ConstTrip() {
+						allConst = false
+					}
+				}
+				if allConst {
+					r.OK("L3", core.QualName(fn), expr, p.Pos(call.Pos()), "inside loops over constant tables only (constant trip count)")
 					continue
 				}
 				bounded := true
